@@ -137,6 +137,8 @@ type Exec struct {
 	maxTerms    int
 	pruneMs     int
 	decideBranches bool
+	fixedOrder  bool
+	nconc       int
 	blockLog    []blockRec
 	profile     map[string]*[3]int64 // fn -> self terms, calls, self ns
 	profStack   []profRec
@@ -569,7 +571,78 @@ func (ex *Exec) load(fr *Frame, p Ptr, what string) Value {
 	return res
 }
 
+// concretize: a value that depends only on map-order picks (not on harness inputs) is often the
+// same for every order (order-insensitive loops such as `for n := range set { n.Layer += d }`).
+// If the pruning solver proves it constant under the current guard it is replaced by that constant,
+// which keeps the heap concrete; values that really depend on the order stay symbolic.
+func (ex *Exec) concretize(g *T, v Value) Value {
+	if ex.fixedOrder || ex.pruneMs <= 0 {
+		return v
+	}
+	switch x := v.(type) {
+	case *T:
+		if isC(x) || x.fl != 1 || (x.sort != SInt && x.sort != SBool && x.sort != SReal) {
+			return v
+		}
+		if ex.infeasible(g) || !ex.haveSolver() {
+			return v
+		}
+		m := ex.sol.lastModelFor(ex, g)
+		if m == nil {
+			return v
+		}
+		var c *T
+		switch val := m.eval(x).(type) {
+		case bool:
+			c = B(val)
+		case *big.Rat:
+			if x.sort == SInt {
+				if !val.IsInt() {
+					return v
+				}
+				c = I(val.Num().Int64())
+			} else {
+				c = R(val)
+			}
+		default:
+			return v
+		}
+		if ex.infeasible(And(g, Not(Eq(x, c)))) {
+			ex.nconc++
+			return c
+		}
+		return v
+	case Ptr:
+		if len(x.c) < 2 {
+			return v
+		}
+		for _, pc := range x.c {
+			if pc.g.fl != 1 {
+				return v
+			}
+		}
+		if ex.infeasible(g) || !ex.haveSolver() {
+			return v
+		}
+		m := ex.sol.lastModelFor(ex, g)
+		if m == nil {
+			return v
+		}
+		for _, pc := range x.c {
+			if m.b(pc.g) {
+				if ex.infeasible(And(g, Not(pc.g))) {
+					ex.nconc++
+					return Ptr{[]PC{{TT, pc.obj, pc.path}}}
+				}
+				return v
+			}
+		}
+	}
+	return v
+}
+
 func (ex *Exec) store(fr *Frame, p Ptr, v Value, what string) {
+	v = ex.concretize(fr.g, v)
 	for _, c := range p.c {
 		if c.obj == nil {
 			ex.addPanic(fr, And(fr.g, c.g), "nil dereference "+what)
@@ -768,6 +841,20 @@ func (ex *Exec) decide(g, c *T) *T {
 		return FF
 	}
 	return c
+}
+
+func (ex *Exec) haveSolver() bool {
+	if ex.pruneMs <= 0 {
+		return false
+	}
+	if ex.sol == nil {
+		ex.sol = newSolver(ex.pruneMs)
+		if ex.sol == nil {
+			ex.pruneMs = 0
+			return false
+		}
+	}
+	return true
 }
 
 // infeasible: the pruning solver (started lazily) proves g unsatisfiable under the assumptions.
@@ -1012,6 +1099,7 @@ func (ex *Exec) step(fr *Frame, ins ssa.Instruction) {
 		}
 		ex.addPanic(fr, And(g, isNil), "assignment to entry in nil map "+site(ins))
 		k, v := ex.eval(fr, x.Key), ex.eval(fr, x.Value)
+		k, v = ex.concretize(fr.g, k), ex.concretize(fr.g, v)
 		for _, c := range m.c {
 			c.m.update(And(fr.g, c.g), k, v)
 		}
@@ -1528,9 +1616,38 @@ func (ex *Exec) nextOp(fr *Frame, x *ssa.Next) {
 		ex.set(fr, x, TupleV{TT, I(int64(off)), I(int64(rs[j]))})
 		return
 	}
+	if ex.fixedOrder && !it.checked {
+		// fixed (insertion) order is used only when the set of live keys is concrete
+		it.checked = true
+		it.fixed = true
+		var keys []Value
+		for i, p := range it.pres {
+			if p == TT {
+				keys = append(keys, it.keys[i])
+			} else if p != FF {
+				it.fixed = false
+			}
+		}
+		if it.fixed {
+			it.keys = keys
+			it.pres = make([]*T, len(keys))
+			for i := range it.pres {
+				it.pres[i] = TT
+			}
+		}
+	}
 	n := len(it.keys)
 	j := it.step
 	it.step++
+	if it.fixed {
+		if j >= n {
+			ex.set(fr, x, TupleV{FF, zero(it.kt), zero(it.vt)})
+			return
+		}
+		val, _ := ex.mapLookup(fr, MapV{it.ms}, it.keys[j], it.vt)
+		ex.set(fr, x, TupleV{TT, it.keys[j], val})
+		return
+	}
 	if j >= n {
 		ex.set(fr, x, TupleV{FF, zero(it.kt), zero(it.vt)})
 		return
